@@ -63,6 +63,16 @@ fn cmp<T: ToTokens>(what: &str, a: &T, b: &T) -> Result<(), String> {
 }
 
 fn cmp_attrs(what: &str, input: &[syn::Attribute], output: &[syn::Attribute]) -> Result<(), String> {
+    // an inner attribute (`#![..]` / `//! ..` at the top of the trait's body) means the same written as an outer one: the
+    // trait is re-emitted, which spelling it comes back in is not prescribed - but it must come back, in place
+    let outer = |a: &syn::Attribute| {
+        let mut a = a.clone();
+        a.style = syn::AttrStyle::Outer;
+        a
+    };
+    let input: Vec<syn::Attribute> = input.iter().map(outer).collect();
+    let output: Vec<syn::Attribute> = output.iter().map(outer).collect();
+    let (input, output) = (&input[..], &output[..]);
     let inp: Vec<Vec<Tok>> = input.iter().map(|a| t_of(a)).collect();
     // macro-owned = looks like a mock derivation and is not one of the user's own attributes
     let out_user: Vec<Vec<Tok>> = output.iter().filter(|a| !(attr_is_mock(a) && !inp.contains(&t_of(*a)))).map(|a| t_of(a)).collect();
@@ -276,6 +286,7 @@ pub fn gen_case(t: &mut Tape) -> Case {
     let has_default = tr.items.iter().any(|i| matches!(i, TraitItemSrc::Method(m) if m.body.is_some()));
     let has_assoc = tr.items.iter().any(|i| matches!(i, TraitItemSrc::AssocType(_)));
     let nontrivial = !tr.attrs.is_empty()
+        || !tr.inner_attrs.is_empty()
         || tr.unsafety
         || !tr.generics.is_empty()
         || !tr.supertraits.is_empty()
